@@ -121,6 +121,15 @@ def pool_entry(name):
             for q in getattr(o, "prerequisites", []) or []:
                 pre.add(q if isinstance(q, str) else getattr(q, "unique_id", str(q)))
         return "jcl", [{"rule": {rid: {"disable": True} for rid in sorted(pre) if rid in db}}]
+    if name == "spaces_bounds":
+        # documented bound forms of number_of_spaces (docs/configuring_whitespace_rules.rst), never a plain 0
+        rng = random.Random(hash_name(name))
+        d = {}
+        for rid, m in _rules_with_option("number_of_spaces"):
+            if m["options"]["number_of_spaces"] == 0:
+                continue
+            d[rid] = {"number_of_spaces": rng.choice([">=0", "0+", "<=2", "<3", ">=1", 2, ">1"])}
+        return "jcl", [{"rule": d}]
     if name == "ws_rules_off":
         return "jcl", [{"rule": {"whitespace_001": {"disable": True}, "whitespace_200": {"disable": True}, "comment_010": {"disable": True}}}]
     if name == "ws_rules_warning":
@@ -142,7 +151,7 @@ DOMAIN = {
     "case": ["lower", "upper"],
     "indent_style": ["spaces", "smart_tabs"],
     "indent_size": [2, 3, 4],
-    "number_of_spaces": [1, 2, ">=1", ">=2", "1+", "2+"],
+    "number_of_spaces": [1, 2, ">=1", ">=2", "1+", "2+", ">=0", "0+", "<=2", "<3"],
     "style": None,  # rule dependent, see _style_domain
     "parenthesis": ["insert", "remove"],
     "blank_lines_allowed": [1, 2],
